@@ -308,8 +308,14 @@ def gen(batch, stride, offset):
                 pos.append((a + 1, b + 1, m['id'])); shift += len(m['new']) - (m['end'] - m['start'] + 1)
             for (ff, ln) in bad:
                 if ff.endswith(f):
+                    hit = False
                     for a, b, mid in pos:
-                        if a <= ln <= b: drop.add(mid)
+                        if a <= ln <= b: drop.add(mid); hit = True
+                    if not hit:
+                        # an error after the mutated site (e.g. "use of moved value"): blame the
+                        # nearest mutant above it in the same file
+                        above = [(a, mid) for a, b, mid in pos if a <= ln]
+                        if above: drop.add(max(above)[1])
         if not drop:
             print(out[-3000:]); raise SystemExit('errors outside mutants')
         print(f'attempt {attempt}: dropping {len(drop)} non-compiling mutants')
